@@ -13,6 +13,7 @@ EXPLANATION = (
     '(R4 also: the reset point of the global event buffer replaces or empties every one of its fields.) '
     '(R1 also: the global RNG is installed only after the simulation lock was obtained.) '
     '(R3 also: an address is never hashed, ordered or turned into a number outside the allocator.) '
+    "(R2 also: callbacks given to the async runtime are run inside the future the seeded runtime drives.) "
     "Decides these necessary conditions only; not equality of two observable traces.")
 ASSUMPTIONS = ["tokio's scheduler is deterministic given rng_seed and a current-thread runtime", "StdRng is deterministic given its seed"]
 
